@@ -372,7 +372,14 @@ def prog_store(env, case):
                 rrow.append(s * dot(P[p0], P[p1]) - F[e0])
         entries.append(row)
         refs.append(rrow)
-    m = PSDMatrix(entries)
+    try:
+        m = PSDMatrix(entries)
+    except TypeError:
+        # real behaviour: a matrix made only of Python ints becomes an int64 array and is rejected (raises, which
+        # the property allows: no object with another meaning is produced)
+        env.check(all(type(x) is int for row in entries for x in row),
+                  "PSDMatrix rejected a matrix of Expressions / float scalars", signature="C06:store-rejects")
+        return "store-raised"
     env.check(m.shape == (n, n), "PSDMatrix shape differs from the matrix written", signature="C06:store-shape")
     for i in range(n):
         for j in range(n):
@@ -509,7 +516,7 @@ def main(tier, only=None):
         cs = [c for c in cs if only in c['id']]
     return runner.run_property(
         "C06", tier, "vf.props.c06", cs,
-        opts=dict(max_paths=3000000, assert_timeout_ms=30000),
+        opts=dict(max_paths=3000000, assert_timeout_ms=30000, mode='reexec'),
         assumptions=["leaf points valued in R^2 (all forms are bilinear, so a counterexample in R^d projects to one in "
                      "a 2-D subspace only for single products; stated as a bound)",
                      "operand kinds outside the documented ones are a finite list (str, None, list, tuple, complex, bool, "
